@@ -1,0 +1,41 @@
+// Copyright 2025 SCION Association
+//
+// Licensed under the Apache License, Version 2.0 (the "License");
+// you may not use this file except in compliance with the License.
+// You may obtain a copy of the License at
+//
+//   http://www.apache.org/licenses/LICENSE-2.0
+//
+// Unless required by applicable law or agreed to in writing, software
+// distributed under the License is distributed on an "AS IS" BASIS,
+// WITHOUT WARRANTIES OR CONDITIONS OF ANY KIND, either express or implied.
+// See the License for the specific language governing permissions and
+// limitations under the License.
+
+//go:build verif
+
+package router
+
+import (
+	"github.com/scionproto/scion/pkg/addr"
+	"github.com/scionproto/scion/router/bfd"
+	"github.com/scionproto/scion/router/control"
+)
+
+// VerifNewBFDSender returns a fresh, real bfdSend for the given interface of the data plane (what
+// newExternalInterfaceBFD / newNextHopBFD hand to a bfd.Session). It is independent of any sender
+// owned by a session of that interface, so a harness goroutine can drive it (one goroutine per
+// sender: Send is not goroutine safe). Only usable once the data plane runs (packet pool).
+func (v *VerifDP) VerifNewBFDSender(
+	ifID uint16, remoteIA addr.IA, remoteAddr string, localHost, remoteHost addr.Host,
+	intraAS bool,
+) (bfd.Sender, error) {
+	link := control.LinkInfo{
+		Local:  control.LinkEnd{IA: v.D.localIA},
+		Remote: control.LinkEnd{IA: remoteIA, Addr: remoteAddr},
+	}
+	return newBFDSend(v.D, link, localHost, remoteHost, ifID, intraAS, v.D.macFactory())
+}
+
+// VerifPool returns the data plane's packet pool (valid after Run initialized it).
+func (v *VerifDP) VerifPool() PacketPool { return v.D.packetPool }
